@@ -287,8 +287,14 @@ func Main(p Prop) {
 			if batches[i].Procs <= 0 {
 				batches[i].Procs = 1
 			}
+			// the batch watchdog only keeps a run from hanging for ever (its expiry is
+			// "inconclusive", never a verdict): generous enough for a machine that runs many
+			// checks at once
 			if batches[i].TimeoutS <= 0 {
-				batches[i].TimeoutS = 900
+				batches[i].TimeoutS = 1800
+			}
+			if *tier == "thorough" && batches[i].TimeoutS < 7200 {
+				batches[i].TimeoutS = 7200
 			}
 			if batches[i].MemMB <= 0 {
 				batches[i].MemMB = 4096
